@@ -191,6 +191,20 @@ def main():
                     ok = ok and enc(tys[cidx], cell) == enc(tys[cidx], full[0][names_now[cidx]])
                     cell2 = df.read_cell(col_name=names_now[0], row_idx=[r])
                     ok = ok and enc(tys[0], cell2) == enc(tys[0], full[r][names_now[0]])
+                    # several columns at once come back in the order ASKED for (all of them reversed, all but one, rotated),
+                    # by name and by index
+                    if len(names_now) >= 2:
+                        rev = names_now[::-1]
+                        for sel in (rev, rev[:-1], names_now[1:] + names_now[:1]):
+                            for res in (df.read_columns(name=list(sel)), df.read_columns(index=[names_now.index(x) for x in sel])):
+                                if len(sel) == 1:
+                                    ok = ok and [enc(tys[names_now.index(sel[0])], x) for x in res] == \
+                                        [enc(tys[names_now.index(sel[0])], x) for x in full[sel[0]]]
+                                    continue
+                                ok = ok and list(res.dtype.names) == list(sel)
+                                for j, nm in enumerate(sel):
+                                    t = tys[names_now.index(nm)]
+                                    ok = ok and [enc(t, rw[j]) for rw in res] == [enc(t, x) for x in full[nm]]
                     if not ok:
                         ob[0] += 100
             except Exception as exc:
